@@ -169,6 +169,11 @@ func rewriteGo(x *ast.GoStmt) ast.Stmt {
 	var lhs, rhs []ast.Expr
 	newArgs := make([]ast.Expr, len(cl.Args))
 	for i, a := range cl.Args {
+		if isLiteral(a) {
+			// an untyped constant must stay where it is: copied into a variable it would take its default type
+			newArgs[i] = a
+			continue
+		}
 		tmpN++
 		id := "vs_arg" + strconv.Itoa(tmpN)
 		lhs = append(lhs, ast.NewIdent(id))
@@ -184,6 +189,23 @@ func rewriteGo(x *ast.GoStmt) ast.Stmt {
 		return spawn
 	}
 	return &ast.BlockStmt{List: []ast.Stmt{&ast.AssignStmt{Lhs: lhs, Tok: token.DEFINE, Rhs: rhs}, spawn}}
+}
+
+// isLiteral: an expression built from literals and the predeclared nil/true/false only.
+func isLiteral(e ast.Expr) bool {
+	switch x := e.(type) {
+	case *ast.BasicLit:
+		return true
+	case *ast.Ident:
+		return x.Name == "nil" || x.Name == "true" || x.Name == "false"
+	case *ast.ParenExpr:
+		return isLiteral(x.X)
+	case *ast.UnaryExpr:
+		return x.Op != token.AND && x.Op != token.ARROW && isLiteral(x.X)
+	case *ast.BinaryExpr:
+		return isLiteral(x.X) && isLiteral(x.Y)
+	}
+	return false
 }
 
 func rewriteRange(x *ast.RangeStmt) ast.Stmt {
